@@ -153,6 +153,22 @@ impl AckFrame {
         self.ecn.take()
     }
 
+    /// Return the smallest packet number acknowledged by this frame,
+    /// or `None` if any range of the frame reaches below packet number 0.
+    ///
+    /// If any computed packet number is negative, an endpoint MUST generate a connection
+    /// error of type FRAME_ENCODING_ERROR.
+    /// See [section-19.3.1](https://www.rfc-editor.org/rfc/rfc9000.html#section-19.3.1).
+    pub fn smallest(&self) -> Option<u64> {
+        let first = self.largest().checked_sub(self.first_range())?;
+        self.ranges.iter().try_fold(first, |smallest, (gap, range)| {
+            smallest
+                .checked_sub(gap.into_u64())?
+                .checked_sub(2)?
+                .checked_sub(range.into_u64())
+        })
+    }
+
     /// Iterate through the sequence numbers of the packets acknowledged by the iterative ACK frame,
     /// starting from the largest and going down.
     pub fn iter(&self) -> impl Iterator<Item = RangeInclusive<u64>> + '_ {
